@@ -52,6 +52,8 @@ pub struct ShardCtx {
     pub shards: usize,
     /// scale factor in percent applied to run counts (VERIF_SCALE, for self-tests)
     pub scale: usize,
+    /// prefix replay: stop after this run index
+    pub upto: Option<u64>,
 }
 
 impl ShardCtx {
@@ -61,6 +63,10 @@ impl ShardCtx {
     }
     pub fn mine(&self, i: u64) -> bool {
         (i as usize) % self.shards == self.shard
+    }
+    /// True when the shard's loop has to stop (prefix replay).
+    pub fn past_end(&self, i: u64) -> bool {
+        self.upto.map(|u| i > u).unwrap_or(false)
     }
     pub fn scaled(&self, n: usize) -> usize {
         (n * self.scale / 100).max(1)
@@ -86,6 +92,10 @@ pub struct Report {
     pub distinct: BTreeMap<String, BTreeSet<u64>>,
     pub samples: Vec<J>,
     pub violations: Vec<Violation>,
+    /// run index during which each violation was reported (parallel to `violations`)
+    pub violation_runs: Vec<u64>,
+    /// index of the run in progress (set by the check's loop)
+    pub current_run: u64,
     pub harness_errors: Vec<String>,
     /// remarks for the reader (printed as NOTE lines, copied into the evidence; no verdict)
     pub notes: Vec<String>,
@@ -112,6 +122,7 @@ impl Report {
         // one report per signature per shard is enough
         if !self.violations.iter().any(|x| x.signature == v.signature) {
             self.violations.push(v);
+            self.violation_runs.push(self.current_run);
         }
     }
     pub fn has_signature(&self, sig: &str) -> bool {
@@ -144,8 +155,10 @@ pub fn write_shard_report(ctx: &ShardCtx, r: &Report) {
     let viol: Vec<J> = r
         .violations
         .iter()
-        .map(|v| {
-            json!({"class": v.class, "signature": v.signature, "summary": v.summary, "scenario": v.scenario})
+        .zip(r.violation_runs.iter())
+        .map(|(v, run)| {
+            json!({"class": v.class, "signature": v.signature, "summary": v.summary, "scenario": v.scenario,
+                   "prefix": {"property": ctx.prop, "tier": ctx.tier.name(), "seed": ctx.seed, "shard": ctx.shard, "shards": ctx.shards, "scale": ctx.scale, "run": run}})
         })
         .collect();
     let j = json!({
@@ -420,6 +433,9 @@ pub fn run_check(meta: &CheckMeta, tier: Tier) -> i32 {
             "summary": v["summary"],
             "verif_seed": seed,
             "scenario": v["scenario"],
+            // fallback for failures that depend on the earlier history of the worker process:
+            // re-run that worker's seeded sequence of runs up to and including the failing one
+            "prefix": v["prefix"],
         });
         let text = serde_json::to_string_pretty(&body).unwrap();
         let h = rng::hash_str(&text);
